@@ -43,6 +43,11 @@ Definition targets (p : program) : list target :=
 (* the targets a position lies in (ranges include both ends, as Range.Contains does) *)
 Definition at_pos (p : program) (q : pos) : list target := filter (fun t => contains (trange t) q) (targets p).
 
+(* no two targets share a range (each is a token of its own) *)
+Definition distinct_ranges (p : program) : bool :=
+  (fix go (l : list range) := match l with [] => true | r :: l' => negb (existsb (range_eqb r) l') && go l' end)
+    (map trange (targets p)).
+
 Definition ctx_eqb (a b : fn_context) : bool :=
   match a, b with CtxStatement, CtxStatement | CtxOrigin, CtxOrigin => true | _, _ => false end.
 
